@@ -217,3 +217,32 @@ pub fn set_case_strategy(g: SetGen) -> BoxedStrategy<Case> {
         })
         .boxed()
 }
+
+pub struct LayGen {
+    pub prop: u64,
+    pub weights: &'static [(u16, u32)],
+    pub max_ops: usize,
+    pub generic_pct: u32,
+}
+
+pub fn lay_case_strategy(g: LayGen) -> BoxedStrategy<Case> {
+    let LayGen { prop, weights, max_ops, generic_pct } = g;
+    let u = prop_oneof![2 => Just(4u64), 3 => Just(12u64), 3 => Just(40u64), 1 => Just(200u64)];
+    (u, 0u64..hbv::layouts::N_LAYOUTS, 0u64..3, plan_strategy(), cap_strategy(), 0u32..100)
+        .prop_flat_map(move |(u, layout, coll, plan, cap, be)| {
+            let ops = vec(ops_strategy(hbv::specs::LAY_OPS, weights, u), 0..max_ops);
+            ops.prop_map(move |ops| {
+                let mut c = Case::new("lay");
+                c.set("prop", prop);
+                c.set("u", u);
+                c.set("layout", layout);
+                c.set("coll", coll);
+                c.set("cap", cap);
+                c.set("backend", (be < generic_pct) as u64);
+                set_plan(&mut c, "", plan);
+                c.ops = ops;
+                c
+            })
+        })
+        .boxed()
+}
